@@ -355,9 +355,20 @@ def replace_all_uses_with(
         values = (values,)
     if not isinstance(replacements, Sequence):
         replacements = (replacements,)
+    # Validate every pair before changing anything, so that a rejected call has no effect
+    _check_all_uses_replaceable(values, replacements, replace_graph_outputs)
+    for value, replacement in zip(values, replacements):
+        value.replace_all_uses_with(replacement, replace_graph_outputs=replace_graph_outputs)
+
+
+def _check_all_uses_replaceable(
+    values: Sequence[_protocols.ValueProtocol],
+    replacements: Sequence[_protocols.ValueProtocol],
+    replace_graph_outputs: bool,
+) -> None:
+    """Raise if replace_all_uses_with would reject any pair, without modifying anything."""
     if len(values) != len(replacements):
         raise ValueError("The number of values and replacements must match.")
-    # Validate every pair before changing anything, so that a rejected call has no effect
     new_output_owner: dict[int, _core.Graph] = {}
     for value, replacement in zip(values, replacements):
         if not value.is_graph_output():
@@ -376,8 +387,6 @@ def replace_all_uses_with(
                 f"{replacement!r} cannot replace outputs of two different graphs "
                 f"({new_output_owner[id(replacement)].name!r} and {graph.name!r})."
             )
-    for value, replacement in zip(values, replacements):
-        value.replace_all_uses_with(replacement, replace_graph_outputs=replace_graph_outputs)
 
 
 def rename_values(
@@ -528,6 +537,87 @@ def create_value_mapping(
     return values
 
 
+def _check_nodes_and_values_replaceable(
+    graph_or_function: _core.Graph | _core.Function,
+    insertion_point: _core.Node,
+    old_nodes: Sequence[_core.Node],
+    new_nodes: Sequence[_core.Node],
+    old_values: Sequence[_core.Value],
+    new_values: Sequence[_core.Value],
+) -> None:
+    """Raise if any step of replace_nodes_and_values would be rejected, without modifying anything."""
+    graph = (
+        graph_or_function.graph
+        if isinstance(graph_or_function, _core.Function)
+        else graph_or_function
+    )
+    # Handing over the names: a new value that is an initializer must keep a unique key
+    names: dict[int, str | None] = {}
+    keys: dict[int, dict[str | None, _core.Value]] = {}
+    for old_value, new_value in zip(old_values, new_values):
+        current = names.get(id(new_value), new_value.name)
+        name = names.get(id(old_value), old_value.name) or current
+        owner = new_value.graph
+        if name != current and new_value.is_initializer() and owner is not None:
+            table = keys.setdefault(id(owner), dict(owner.initializers))
+            if table.get(name, new_value) is not new_value:
+                raise ValueError(
+                    f"{new_value!r} cannot take the name {name!r}: graph {owner.name!r} "
+                    "already has an initializer with that name."
+                )
+            table.pop(current, None)
+            table[name] = new_value
+        names[id(new_value)] = name
+    # Moving the uses
+    _check_all_uses_replaceable(old_values, new_values, True)
+    # Inserting the new nodes
+    if insertion_point.graph is not graph:
+        raise ValueError(
+            f"The node '{insertion_point!r}' to insert after does not belong to this graph."
+        )
+    for node in new_nodes:
+        graph._check_node_not_in_another_graph(node)  # pylint: disable=protected-access
+    # Removing the old nodes safely, judged on the uses as they will be once they have moved
+    consumers: dict[int, list[_core.Node]] = {}
+    output_of: dict[int, _core.Graph | None] = {}
+    for value in (*old_values, *new_values):
+        consumers[id(value)] = [user for user, _ in value.uses()]
+        output_of[id(value)] = value.graph if value.is_graph_output() else None
+    for old_value, new_value in zip(old_values, new_values):
+        if old_value is new_value:
+            continue
+        consumers[id(new_value)] = consumers[id(new_value)] + consumers[id(old_value)]
+        consumers[id(old_value)] = []
+        if output_of[id(old_value)] is not None:
+            output_of[id(new_value)] = output_of[id(old_value)]
+            output_of[id(old_value)] = None
+    graph_outputs = frozenset(graph.outputs)
+    to_remove = frozenset(old_nodes)
+    inserted = frozenset(new_nodes)
+    for node in to_remove:
+        if node.graph is not graph and node not in inserted:
+            raise ValueError(f"The node '{node!r}' does not belong to this graph.")
+        for output in node.outputs:
+            if (
+                output_of[id(output)] is graph
+                if id(output) in output_of
+                else output in graph_outputs
+            ):
+                raise ValueError(
+                    f"Node '{node!r}' is still an output of the graph and cannot be removed."
+                )
+            users = consumers.get(id(output))
+            if users is None:
+                users = [user for user, _ in output.uses()]
+            uses_not_to_remove = [user for user in users if user not in to_remove]
+            if uses_not_to_remove:
+                raise ValueError(
+                    f"Output value '{output!r}' is still being used by other nodes that are not to be "
+                    f"removed. All of its users that is not being removed: {uses_not_to_remove!r}. "
+                    "Please make sure these nodes are no longer using the output value."
+                )
+
+
 def replace_nodes_and_values(
     graph_or_function: _core.Graph | _core.Function,
     /,
@@ -547,6 +637,10 @@ def replace_nodes_and_values(
         old_values: The values to replace.
         new_values: The values to replace with.
     """
+    # Check every step first, so that a rejected call has no effect
+    _check_nodes_and_values_replaceable(
+        graph_or_function, insertion_point, old_nodes, new_nodes, old_values, new_values
+    )
     for old_value, new_value in zip(old_values, new_values):
         # Propagate relevant info from old value to new value
         # TODO(Rama): Perhaps this should be a separate utility function.
